@@ -188,6 +188,8 @@ pub struct Ctx {
     /// run exactly this case, verbosely (replay)
     pub only_case: Option<u64>,
     pub mode: String,
+    /// the `detail` of a replay file (Null in normal runs)
+    pub detail: Value,
 }
 
 impl Ctx {
@@ -205,6 +207,20 @@ impl Ctx {
     pub fn breadcrumb(&self, case: u64, what: &str) {
         let p = self.out_path.with_extension("cur");
         let _ = std::fs::write(p, format!("{}\n{}\n", case, what));
+    }
+    /// Save what has been accumulated so far (at most every two seconds), so that the results of a
+    /// worker that is later killed by a watchdog are not lost.
+    pub fn checkpoint(&self, out: &Out) {
+        use std::sync::atomic::{AtomicU64, Ordering};
+        static LAST: AtomicU64 = AtomicU64::new(0);
+        let now = std::time::SystemTime::now().duration_since(std::time::UNIX_EPOCH).map(|d| d.as_secs()).unwrap_or(0);
+        if now >= LAST.load(Ordering::Relaxed) + 2 {
+            LAST.store(now, Ordering::Relaxed);
+            let tmp = self.out_path.with_extension("tmp");
+            if std::fs::write(&tmp, serde_json::to_vec(&out.to_json()).unwrap()).is_ok() {
+                let _ = std::fs::rename(&tmp, &self.out_path);
+            }
+        }
     }
 }
 
@@ -232,6 +248,9 @@ pub struct WorkerPlan {
     pub nshards: u64,
     pub timeout: Duration,
 }
+
+/// A worker whose breadcrumb has not moved for this long is stuck (cases take milliseconds to seconds).
+pub const STALL_LIMIT: Duration = Duration::from_secs(180);
 
 pub struct CheckSpec {
     pub id: &'static str,
@@ -305,7 +324,12 @@ pub fn run_workers(spec: &CheckSpec, tier: Tier, seed: u64, plans: Vec<WorkerPla
             let done = match running[i].child.try_wait() {
                 Ok(Some(st)) => Some(Ok(st)),
                 Ok(None) => {
-                    if running[i].started.elapsed() > running[i].plan.timeout {
+                    let crumb_age = std::fs::metadata(running[i].out.with_extension("cur")).and_then(|m| m.modified()).ok().and_then(|t| t.elapsed().ok());
+                    let stalled = match crumb_age {
+                        Some(a) => a > STALL_LIMIT,
+                        None => running[i].started.elapsed() > STALL_LIMIT,
+                    };
+                    if stalled || running[i].started.elapsed() > running[i].plan.timeout {
                         let _ = running[i].child.kill();
                         let _ = running[i].child.wait();
                         Some(Err(()))
@@ -340,10 +364,15 @@ pub fn run_workers(spec: &CheckSpec, tier: Tier, seed: u64, plans: Vec<WorkerPla
                             _ => total.inconclusive.push(format!("worker {} (mode {}) ended with {:?} at case {:?} ({})", r.idx, r.plan.mode, st, crumb_case, crumb_what)),
                         }
                     }
-                    Err(()) => total.inconclusive.push(format!(
-                        "worker {} (mode {}) exceeded its watchdog of {:?} at case {:?} ({})",
-                        r.idx, r.plan.mode, r.plan.timeout, crumb_case, crumb_what
-                    )),
+                    Err(()) => {
+                        if let Some(p) = parsed {
+                            total.merge(Out::from_json(&p));
+                        }
+                        total.inconclusive.push(format!(
+                        "worker {} (mode {}) made no progress for {:?} or exceeded its watchdog of {:?}; stopped at case {:?} ({})",
+                        r.idx, r.plan.mode, STALL_LIMIT, r.plan.timeout, crumb_case, crumb_what
+                    ))
+                    }
                 }
                 let _ = std::fs::remove_file(&r.out);
                 let _ = std::fs::remove_file(r.out.with_extension("cur"));
